@@ -945,6 +945,10 @@ func TestC20(t *testing.T) {
 	run.Count("pool/blocks", len(pool.blocks))
 	run.Count("pool/blobs", nblobs)
 
+	// first, while the process is quiet (runs parked later may leave goroutines behind): the feed the
+	// blob module is really wired to
+	c.feedFamily(rng.Split("header-service-feed"))
+
 	var pendMu sync.Mutex
 	var pending []*c20Run
 	// await waits for the run to wind up; a run that does not is parked for the stable-state check
